@@ -93,7 +93,7 @@ type c16ThrCase struct {
 func c16ThrGen(t *rapid.T) interface{} {
 	n := lib.IntN(t, 2, 10, "nfiles")
 	return &c16ThrCase{Thr: float64(lib.IntN(t, 50, 100, "thrPct")) / 100, Files: lib.Ints(t, n, n, 0, 400, "files"),
-		Query: c15Query{Kind: lib.PickStr(t, []string{"edited", "inserted", "inserted", "concat", "variant", "arbitrary"}, "kind"), File: lib.IntN(t, 0, 40, "file"), File2: lib.IntN(t, 0, 40, "file2"),
+		Query: c15Query{Kind: lib.PickStr(t, []string{"edited", "inserted", "inserted", "concat", "variant", "arbitrary", "twice", "twice"}, "kind"), File: lib.IntN(t, 0, 40, "file"), File2: lib.IntN(t, 0, 40, "file2"),
 			Arg: lib.IntN(t, 0, 100, "arg"), Edits: lib.Ints(t, 1, 40, 0, 3000, "edits")}}
 }
 
@@ -137,6 +137,6 @@ func TestVerif_C16_OwnCorpus(t *testing.T) {
 
 func TestVerif_C16_Threshold(t *testing.T) {
 	lib.Run(t, lib.Spec{ID: "C16", Part: "threshold-bound",
-		Rule: "archives of 2-10 small license files, thresholds 0.50-1.00, queries = edited / filler-inserted / concatenated / re-presented license texts and arbitrary license-word text; oracle: no MultipleMatch result (either header mode) has Confidence < Threshold; non-trivial = at least one match returned",
+		Rule: "archives of 2-10 small license files, thresholds 0.50-1.00, queries = edited / filler-inserted / concatenated / re-presented license texts, the same license twice with different amounts of change, and arbitrary license-word text; oracle: no MultipleMatch result (either header mode) has Confidence < Threshold; non-trivial = at least one match returned",
 		New:  func() interface{} { return &c16ThrCase{} }, Gen: c16ThrGen, Check: c16ThrCheck})
 }
